@@ -100,6 +100,10 @@ void RetireList<T, D>::retire(T* data) {
   }
   do {
     node->next = get_node(head);
+    // head可能已被并发的retire更新为更晚的时间戳
+    // 重新取时间，保证表头时间戳不早于链表中任何节点的退役时间
+    timestamp = get_current_timestamp();
+    new_head = make_head(node, timestamp);
   } while (!_head.compare_exchange_weak(head, new_head,
                                         ::std::memory_order_acq_rel));
 }
